@@ -215,12 +215,8 @@ def run(repo, rep):
         probs = per_instance_problems(repo, c)
         rep.check(not probs, 'C20.H2', '%s:%s:per-instance-state' % (mod, cname), c.loc(),
                   'state is created per instance', '; '.join(probs))
-    probs = []
-    for fi in repo.all_functions():
-        a = fi.node.args
-        for d in list(a.defaults) + [x for x in a.kw_defaults if x is not None]:
-            if is_mutable_expr(d):
-                probs.append('%s has a mutable default argument %s' % (fi.key, norm(d)))
+    from ..pitfalls import shared_default_objects
+    probs = shared_default_objects(repo)
     rep.check(not probs, 'C20.H2', 'package:mutable-default-arguments', 'pynetdicom2', 'no mutable default argument', '; '.join(probs))
 
     # ---------------------------------------------------------------- H3
@@ -370,6 +366,8 @@ def run(repo, rep):
                     ch = attr_chain(n.func.value)
                     if ch and len(ch) == 2 and ch[0] == c.name and ch[1] in cl_names:
                         probs.append('%s mutates class-level %s.%s' % (fi.key, c.name, ch[1]))
+    from ..pitfalls import closure_shared_objects
+    probs += closure_shared_objects(repo, ('sopclass', 'asceprovider', 'applicationentity', '__init__', 'dimsemessages'))
     rep.check(not probs, 'C20.H4', 'package:module-level-mutables', 'pynetdicom2',
               'none of %d association-reachable functions mutates a module- or class-level container' % n_checked, '; '.join(sorted(set(probs))))
 
